@@ -395,17 +395,16 @@ theorem ref_cast_conc (op : CastOp) (w bytes : Nat) (x : BitVec w)
   · simp only [Res.val.injEq] at hr; subst hr
     exact ⟨by simp only [concCast, Bv.toInt, clzcount_toInt], rfl, fun h => by rcases h with h | h <;> cases h⟩
 
-/-- **C02-ref-cast (soundness against the P-Code reference semantics).** `bytes` is the target size;
-`hfit` as in `cast_sound` (the bit length of the operand fits the signed range of the result). -/
+/-- **C02-ref-cast (soundness against the P-Code reference semantics).** `bytes` is the target size
+(no restriction on the widths of the count casts any more). -/
 theorem cast_sound_ref (a : IntervalDomain) (op : CastOp) (bytes : Nat) (ha : a.WF) (hb : 0 < bytes)
-    (hfit : (op = .popCount ∨ op = .lzCount) → (a.interval.w : Int) ≤ smax (8 * bytes))
     (x : BitVec a.interval.w) (hx : a.Mem x.toInt)
     {r : Bv} (hr : Ref.cast (toIRCast op) bytes ⟨a.interval.w, x⟩ = .val r) :
     (a.cast op (8 * bytes)).Mem r.toInt ∧ r.w = (a.cast op (8 * bytes)).interval.w := by
   obtain ⟨hz, hrw, hext⟩ := ref_cast_conc op _ bytes x hr
   have hw' : 1 < 8 * bytes := by omega
-  exact ⟨cast_sound a op (8 * bytes) ha hw' hext hfit hx hz,
-    by rw [hrw, (cast_wf a op (8 * bytes) ha hw' hext hfit).2]⟩
+  exact ⟨cast_sound a op (8 * bytes) ha hw' hext hx hz,
+    by rw [hrw, (cast_wf a op (8 * bytes) ha hw' hext).2]⟩
 
 /-! ### `Ref.subpieceOp` -/
 
@@ -488,7 +487,7 @@ example : (exA.binOp (refConc 8 8) .intAdd exB).Mem (Ref.add (BitVec.ofInt 8 (-3
 example : ((IntervalDomain.single 8 5).binOp (refConc 8 8) .intSLess (IntervalDomain.single 8 30)).Mem 1 := by decide
 
 example : (exA.cast .intZExt 16).Mem (Ref.zext (BitVec.ofInt 8 (-1)) 16).toInt :=
-  (cast_sound_ref exA .intZExt 2 exA_wf (by decide) (by intro h; rcases h with h | h <;> cases h)
+  (cast_sound_ref exA .intZExt 2 exA_wf (by decide)
     (BitVec.ofInt 8 (-1)) (by decide) (r := ⟨16, Ref.zext (BitVec.ofInt 8 (-1)) 16⟩) rfl).1
 
 example : (Ref.zext (BitVec.ofInt 8 (-1)) 16).toInt = 255 := by decide
